@@ -6,7 +6,7 @@ import os
 import struct
 
 from vf.core import SECTOR, Model, as_handle, rng_for
-from vf.diskcheck import compare_reads, crossing_count, gen_requests, mismatch_detail
+from vf.diskcheck import compare_reads, continuation_reads, crossing_count, gen_requests, mismatch_detail
 from vf.monitors import call
 from vf.writers import vhdx as w
 
@@ -53,6 +53,8 @@ def plan(tier: str, seed: int) -> list[dict]:
     for j, (bmb, ss) in enumerate(inter):
         for r in range(4 if tier == "quick" else 30):
             cases.append({"k": "chunks", "i": j * 100 + r, "bmb": bmb, "ss": ss, "weight": 6})
+    for i in range(8 if tier == "quick" else 200):
+        cases.append({"k": "twin", "i": i, "weight": 4})
     for f in ("dynamic.vhdx.gz", "fixed.vhdx.gz"):
         cases.append({"k": "fixture", "name": f, "weight": 20})
     return cases
@@ -122,6 +124,27 @@ def run(case: dict, ctx) -> dict:
         res["sample"] = {"fixture": case["name"], "size": model.size, "block_size": model.block_size, "n_requests": len(reqs)}
         return res
 
+    if k == "twin":
+        # images sharing one virtual disk id (the same disk at different times) opened one after the other
+        did = bytes(rng.randrange(256) for _ in range(16))
+        opened = []
+        for t in range(3):
+            n_ = rng.randrange(2, 7)
+            sf, layer, meta = w.build(rng, block_size=MB, sector_size=512, nblocks=n_, states=[rng.choice([0, 2, 6, 6]) for _ in range(n_)],
+                                      placement="shuffle", tag=rng.getrandbits(48), disk_id=did, checksums=False)
+            o = call(VHDX, as_handle(sf))
+            if not o.ok:
+                res["viol"].append({"what": f"open failed on conformant image: {o.brief()}", "mech": MECH, "detail": {"tb": o.tb}})
+                return res
+            opened.append((o.value, Model(meta["size"], [layer])))
+            for v_, m_ in opened:
+                reqs, _ = gen_requests(rng, m_.size, [MB], n_random=8, pair_cap=20, max_len=MB + 5000)
+                compare_reads(v_, m_, reqs, res, MECH, byte_cap=12 << 20)
+        res["cnt"]["same_id_twin_images"] = len(opened)
+        res["nontrivial"] = True
+        res["sig"] = ("twin", case["i"])
+        res["sample"] = {"twin_images_sharing_one_disk_id": len(opened)}
+        return res
     bs = case["bmb"] * MB
     ss = case["ss"]
     spb = bs // ss
@@ -151,7 +174,7 @@ def run(case: dict, ctx) -> dict:
         rng, block_size=bs, sector_size=ss, nblocks=n, tail_cut_sectors=tail, states=states, placement=placement,
         tag=rng.getrandbits(48), seqs=rng.choice([(5, 9), (9, 5), (1, 2), (2**40, 3)]), stale=rng.choice(["valid", "valid", "zero"]),
         meta_item_order=rng.choice([None, "shuffle", "rev"]), item_gap=rng.choice([0, 0, 8, 4096]),
-        checksums=(bs <= 8 * MB), far_mb=rng.choice([0, 0, 0, 1 << 12, (1 << 20) + 3, 3 << 20, 1 << 30]),
+        meta_table_order=rng.choice([None, "shuffle", "rev"]), checksums=(bs <= 8 * MB), far_mb=rng.choice([0, 0, 0, 1 << 12, (1 << 20) + 3, 3 << 20, 1 << 30]),
     )
     model = Model(meta["size"], [layer])
     if sf.end <= (64 << 20) and case["i"] % 4 == 0:
@@ -177,6 +200,7 @@ def run(case: dict, ctx) -> dict:
             for _ in range(2):
                 a = max(0, e - rng.randrange(1, 70000))
                 reqs.append((a, rng.randrange(1, 140000)))
+    continuation_reads(v, model, reqs, rng, res, MECH)
     compare_reads(v, model, reqs, res, MECH, byte_cap=(40 if quick else 120) << 20)
     # sector interface at arbitrary sector alignment
     total = meta["size"] // ss
